@@ -192,7 +192,9 @@ def json_text_ok(v):
 
 
 IDS = [None, "", 0, -1, 1, 1.5, -0.0, 0.0, "a", "id-1", "0", True, False, [], [1], {}, {"a": 1},
-       2 ** 53, "é", [None], {"id": None}]
+       2 ** 53, "é", [None], {"id": None},
+       # integers beyond what a float can hold (exact in JSON and in Python; any detour through float overflows)
+       2 ** 1024, -(2 ** 1100), 10 ** 400, [2 ** 1024], {"n": -(10 ** 320)}]
 
 
 # ---------------------------------------------------------------------------
